@@ -123,7 +123,7 @@ impl<S: SemLike> SemSut<S> {
 
 impl<S: SemLike> Drop for SemSut<S> {
     fn drop(&mut self) {
-        self.futs.clear();
+        self.futs.drop_live();
         self.rels.clear();
         unsafe { drop(Box::from_raw(self.raw)) };
     }
